@@ -11,6 +11,15 @@ CLAIMED = {
              note="Trusted: CrossHair's models of bytes/int operations (each counterexample is replayed natively before it is "
                   "reported), z3. bytes.fromhex/hex/encode/decode are CPython builtins and treated as environment.",
              ref="3/C17"),
+ "C19": dict(cat="model_checking", tech="one-step induction + depth-2 BMC by symbolic execution (CrossHair/z3) of the real array on real files",
+             text="The array is a state machine over (contents, open chunk files, open/closed). One inductive step from every "
+                  "pre-state in the bounded family, with the integer index unbounded and slice bounds symbolic, is executed "
+                  "on the real code and compared with a list model; z3 decides every branch so each path stands for all "
+                  "index values in its class; all path trees are exhausted. Depth-2 sequences cross-check reachability.",
+             note="Trusted: CrossHair's int/range models plus the harness-side pure-Python models of operator.index and "
+                  "slice.indices (validated against CPython on 19600 cases; vf/sx_plugin.py); POSIX semantics of the scratch "
+                  "directory. Item contents are concrete (file I/O realises them).",
+             ref="3/C19"),
 }
 
 NOT_APPLICABLE = {
